@@ -7,6 +7,8 @@
 //!                                                bytes of `dds::encode` sequential vs parallel (pool of THREADS
 //!                                                workers, fragment completion ORDER imposed through the hook)
 //!                                                vs fragment-by-fragment concatenation
+//!   mip FORMAT W H COLOR FILTER STRAIGHT SEED    a whole file through `Encoder` with generated mipmaps, parallel
+//!                                                switch off vs on: identical bytes
 //!   pad FORMAT W H COLOR DITH QUALITY SEED       padding rules of the block / sub-sampled encoders: the image
 //!                                                W x H against the image rounded up to whole blocks whose extra
 //!                                                columns repeat the last pixel of each row and whose extra rows
@@ -625,6 +627,40 @@ pub fn gen(seed: u64, thorough: bool) -> Vec<String> {
             many.push(format!("enc {name} {w} {h} rgba8 none {q} uni {th} {o} {}", rng.below(1 << 30)));
         }
     }
+    // uncompressed formats with MORE pixels than any preferred fragment size of the crate (512 x 512), dithering
+    // requested, inexact (f32 / 16-bit) input: error diffusion must not restart at a fragment boundary (seed C14g)
+    for (i, name) in [
+        "R16_FLOAT", "R16G16B16A16_FLOAT", "R10G10B10A2_UNORM", "R11G11B10_FLOAT", "R9G9B9E5_SHAREDEXP",
+        "R10G10B10_XR_BIAS_A2_UNORM", "Y410", "Y416", "R16G16_UNORM", "R16G16_SNORM", "R8G8B8A8_UNORM",
+        "B5G6R5_UNORM", "B4G4R4A4_UNORM", "R1_UNORM", "R8_UNORM", "R16_UNORM", "AYUV", "YUY2", "NV12",
+    ]
+    .iter()
+    .enumerate()
+    {
+        if !thorough && i % 2 == 1 && i > 9 {
+            continue;
+        }
+        let (w, h) = [(600u64, 500u64), (512, 516), (300, 1000), (1100, 270)][i % 4];
+        let color = ["rgba32", "rgb32", "rgba16", "g32"][i % 4];
+        let d = ["all", "color", "all", "alpha"][(i / 2) % 4];
+        let th = [4usize, 1, 16, 3][i % 4];
+        many.push(format!("enc {name} {w} {h} {color} {d} fast uni {th} {} {}", orders[i % 4], rng.below(1 << 30)));
+        many.push(format!("geo {name} {w} {h} {d} fast"));
+    }
+    // whole files through `Encoder` with generated mipmaps, parallel switch off / on (seed C14h)
+    for (i, &(w, h)) in [(20u64, 12u64), (24, 24), (100, 60), (129, 66), (32, 16), (7, 5), (64, 64), (48, 80), (1, 9), (130, 4)]
+        .iter()
+        .enumerate()
+    {
+        for (j, name) in ["R8G8B8A8_UNORM", "BC1_UNORM", "R16G16B16A16_FLOAT", "BC4_UNORM", "B5G6R5_UNORM"].iter().enumerate() {
+            if !thorough && (i + j) % 2 == 1 {
+                continue;
+            }
+            let filter = ["box", "box", "triangle", "nearest", "mitchell", "lanczos3"][(i + 2 * j) % 6];
+            let color = ["rgba8", "rgb8", "rgba16", "rgba32", "g8"][(i + j) % 5];
+            many.push(format!("mip {name} {w} {h} {color} {filter} {} {}", (i + j) % 2, rng.below(1 << 30)));
+        }
+    }
     if thorough {
         many.push("enc BC4_UNORM 1024 1031 g8 none fast uni 1 nat 5".into());
         many.push("enc BC5_UNORM 1024 2059 rgba8 none fast uni 2 rev 5".into());
@@ -667,6 +703,7 @@ pub fn run(line: &str) -> Option<(String, Vec<String>)> {
         "geo" if t.len() == 6 => run_geo(&t),
         "enc" if t.len() == 11 => run_enc(&t),
         "pad" if t.len() == 8 => run_pad(&t),
+        "mip" if t.len() == 8 => run_mip(&t),
         _ => None,
     }
 }
@@ -875,6 +912,71 @@ fn run_pad(t: &[&str]) -> Option<(String, Vec<String>)> {
         format!("pad {}", status(&ra))
     };
     Some((res, vec![]))
+}
+
+/// `mip FORMAT W H COLOR FILTER STRAIGHT SEED`: a whole file through `Encoder` with generated mipmaps (full chain),
+/// once with `options.parallel` off and once with it on (pool of 4): the bytes must be identical (seed C14h — the
+/// parallel switch reaches the mipmap generator as well as the block encoders).
+fn run_mip(t: &[&str]) -> Option<(String, Vec<String>)> {
+    let format = match parse_format(t[1]) {
+        Some(f) => f,
+        None => return Some(("bad-case".into(), vec![])),
+    };
+    let (w, h) = (p_u32(t[2])?, p_u32(t[3])?);
+    let color = parse_color(t[4])?;
+    let filter = match t[5] {
+        "nearest" => ResizeFilter::Nearest,
+        "box" => ResizeFilter::Box,
+        "triangle" => ResizeFilter::Triangle,
+        "mitchell" => ResizeFilter::Mitchell,
+        "lanczos3" => ResizeFilter::Lanczos3,
+        _ => return None,
+    };
+    let straight = match t[6] {
+        "0" => false,
+        "1" => true,
+        _ => return None,
+    };
+    let seed = p_u64(t[7])?;
+    if w == 0 || h == 0 || w as u64 * h as u64 > 1 << 20 || format.encoding_support().is_none() {
+        return None;
+    }
+    let data = make_image(w, h, color, seed);
+    let image = ImageView::new(&data, Size::new(w, h), color)?;
+    let header = dds::header::Header::new_image(w, h, format).with_mipmaps();
+    let run_one = |parallel: bool| -> Result<Vec<u8>, String> {
+        let mut out = Vec::new();
+        let mut enc = Encoder::new(&mut out, format, &header).map_err(|e| format!("{e:?}"))?;
+        enc.options.parallel = parallel;
+        enc.options.quality = CompressionQuality::Fast;
+        enc.mipmaps.generate = true;
+        enc.mipmaps.resize_filter = filter;
+        enc.mipmaps.resize_straight_alpha = straight;
+        enc.write_surface(image).map_err(|e| format!("{e:?}"))?;
+        enc.finish().map_err(|e| format!("{e:?}"))?;
+        Ok(out)
+    };
+    let seq = run_one(false);
+    let par = pool(4).install(|| run_one(true));
+    let mut orc = vec![];
+    let res = match (&seq, &par) {
+        (Ok(a), Ok(b)) => {
+            if a != b {
+                orc.push(format!(
+                    "Encoder with generated mipmaps: parallel and sequential files differ ({})",
+                    hexdiff(a, b)
+                ));
+            }
+            "mip ok".to_string()
+        }
+        (a, b) => {
+            if a.is_ok() != b.is_ok() {
+                orc.push("Encoder with generated mipmaps: one of parallel / sequential failed, the other did not".into());
+            }
+            "mip err".to_string()
+        }
+    };
+    Some((res, orc))
 }
 
 fn hexdiff(a: &[u8], b: &[u8]) -> String {
